@@ -529,7 +529,18 @@ class Evaluator:
 
     def ev_Subscript(self, e, st):
         out = []
+        vals_ = []
         for s, v in self.ev(e.value, st):
+            if isinstance(v.ty, TOpt):
+                # subscripting an optional value: None raises TypeError, otherwise the payload is subscripted
+                for s_, isnone_ in self.fork(s, v.t[0]):
+                    if isnone_:
+                        self.exc_out.append(Outcome('raise', s_, ExcVal(TypeError)))
+                    else:
+                        vals_.append((s_, SV(v.ty.inner, v.t[1:], py=v.py)))
+            else:
+                vals_.append((s, v))
+        for s, v in vals_:
             if isinstance(v.ty, TFunc) and isinstance(v.py.obj, dict):
                 out += self.const_dict_index(v.py.obj, e.slice, s)
                 continue
@@ -579,16 +590,18 @@ class Evaluator:
         for s2, k in self.ev(slice_e, s):
             rest = s2
             for key, val in d.items():
+                if rest is None:
+                    break
                 c = eq(k, self.lift_const(key))
+                nxt = None
                 for s3, b in self.fork(rest, c):
                     if b:
                         out.append((s3, self.lift_const(val)))
                     else:
-                        rest = s3
-                if not any(not b for _, b in self.fork(rest, z3.BoolVal(True))):
-                    pass
+                        nxt = s3
+                rest = nxt          # None: this key certainly matches on what is left, nothing falls through
             # no key matched
-            if self.feasible(rest.pc):
+            if rest is not None and self.feasible(rest.pc):
                 self.exc_out.append(Outcome('raise', rest, ExcVal(KeyError)))
         return out
 
